@@ -8,7 +8,7 @@ LEVEL_TEXT = ("Row 0 and the per-node statuses at tmin must equal the request fo
               "raise EoNError; basic_discrete_SIR and discrete_SIR must produce identical executions under identical draws (all draw outcomes enumerated).")
 LEVEL_NOTE = "node labels are small ints; graphs <=4 nodes; the monitor part inherits the bounds of the families it rides on"
 RULE = "one evaluation = one call (containers/conflict), one sample outcome (rho) or one execution of a family spec; non-trivial = call that returns a trajectory"
-BOUNDS = {"quick": "10 simulators x 7 graphs x |I0|<=2 x |R0|<=1 x 7 containers x 2 passing styles x 3 tmin x 2 return modes; 8 rho values; 12 conflict cases each; differential on P2,P3,K3",
+BOUNDS = {"quick": "10 simulators x 7 graphs x |I0|<=2 x |R0|<=1 x 7 containers x 2 passing styles x 3 tmin x 2 return modes; 8 rho values; 12 conflict cases each; differential on P2,P3,K3; events at exactly tmin (zero delay / zero infectious period rules) for fast_nonMarkov_SIS/SIR on P2,P3,K3,S4, array output",
           "thorough": "adds all graph shapes on 4 nodes"}
 ASSUMPTIONS = ["an initially recovered *collection* is passed (a bare node for initial_recovereds is not required by the property)"]
 PROPS = ("C05",)
